@@ -52,6 +52,7 @@ class Summary:
         self.falsy: Optional[frozenset] = None
         self.ledger: List[dict] = []
         self.notes: List[str] = []
+        self.pre: Dict[int, frozenset] = {}  # state before each simple statement (final pass)
 
     def sig(self):
         return (frozenset((k, e.facts) for k, e in self.escapes.items()), self.ret_facts, self.exit_facts, self.truthy, self.falsy)
@@ -671,6 +672,9 @@ class Domain:
 
     # ------------------------------------------------------------ statements
     def stmt(self, s, st, flow):
+        if not flow.quiet:
+            old = self.summ.pre.get(id(s))
+            self.summ.pre[id(s)] = st if old is None else F.meet(old, st)
         if isinstance(s, ast.Assign):
             for t in s.targets:
                 st = self._store(t, s.value, st, flow)
